@@ -66,7 +66,7 @@ P = {
          "TLC checks Monotone, Sound, Complete and RestartNoRegress for every target vector, delivery order with duplicates and stale lower counts, replication factors 1-3 and every crash point of the temp/remove/rename/rename sequence; stale-count histories from the exhaustive runs and random walks are replayed on the real manager (on-disk counts raised through Database::set_confirmations, update_confirmation, persist_bucket_state with directory snapshots at the hook points, fresh manager initialised on the snapshot) comparing the watermark after every step.",
          "On-disk count of an event >= every count reported for it (write path order). The automatic persistence inside update_confirmation is an allowed PersistStep of the model.", "5/C08", "h-cluster"),
  "C07": ("model_checking", "Gating.tla (watermark = longest quorum-confirmed prefix, visible set) checked by TLC over all small histories; every history built on a real Database under the real ClusterActor and queried with every argument tuple",
-         "TLC enumerates all partition histories of up to 3-4 transactions with confirmation counts below/at/above the quorum for rf 1,2,3,5 and checks the gate's own properties; each history is built on disk, given to the real ClusterActor (once with the watermark derived from disk by the real ConfirmationActor, once with the actor running first and the confirmed transactions reported live through ConfirmTransaction in reverse order, so that unreported events are holes) and ReadEvent, ReadPartition, ReadStream, GetStreamVersion, GetPartitionSequence are sent for every event / (start, end, count) / stream; no answer may reveal anything at or above the specification's watermark.",
+         "TLC enumerates all partition histories of up to 3-4 transactions with confirmation counts below/at/above the quorum for rf 1,2,3,5 and checks the gate's own properties; each history is built on disk, given to the real ClusterActor (once with the watermark derived from disk by the real ConfirmationActor, once with the actor running first and the confirmed transactions reported live through ConfirmTransaction in reverse order, so that unreported events are holes) and ReadEvent, ReadPartition, ReadStream, GetStreamVersion, GetPartitionSequence are sent for every event / (start, end, count) / stream; no answer may reveal anything at or above the specification's watermark; stream reads are also addressed to a fully confirmed sibling partition of the same bucket (shared stream index, other watermark).",
          "Single-process cluster (node_count 1): forwarding between replicas not exercised; answers revealing fewer events than visible are counted, not judged.", "5/C07", "h-cluster"),
  "C12": ("model_checking", "Replicator.tla (ordered buffer, drain, expiry, catch-up) model-checked by TLC; one behaviour per quiescent final state replayed on a real PartitionReplicatorActor with real ReplicateWrite asks, timers and catch-up",
          "TLC explores every delivery order, duplication and conflict pattern of six replicated transactions (single/2-event, conflicting, inside a multi-event range) with buffer limits 1-3 and checks AppliedAtAssignedSeq, AtMostOnce, NoPendingBelowNext, RejectLeavesLogUnchanged, AllAnsweredAtRest; behaviours are replayed on a real PartitionReplicatorActor (real Database, ConfirmationActor, catch-up served by the real ClusterActor): the reply of every delivery and the replica's partition log are compared.",
